@@ -212,7 +212,7 @@ lazy_static! {
 [\ ]
 \(                 # open ( which the previous file name may not contain in case a name does (which is more likely)
 (
-    [^\ ].*[^\ ]   # author name
+    [^\ ](?:.*?[^\ ])??  # author name (as short as possible: the code may contain text that looks like blame metadata)
 )
 [\ ]+
 (                  # timestamp
